@@ -782,6 +782,10 @@ cJSON *get_elements(const cJSON *request, const struct peer *request_peer)
 	}
 
 	cJSON *states = cJSON_CreateArray();
+	if (unlikely(states == NULL)) {
+		response = create_error_response_from_request(request_peer, request, INTERNAL_ERROR, "reason", "could not allocate memory for states array");
+		goto out;
+	}
 
 	struct list_head *item;
 	struct list_head *tmp;
